@@ -83,11 +83,35 @@ func c04Judge(c *ctx, p *c03Proto, out *c03Outcome) {
 		c.res.Sample(3, map[string]interface{}{"case": cs, "outcome": c03Describe(out)})
 	}
 	fs := c04JudgeBlame(out.Honest, party.ID(cs.Cheater))
+	if c03IsDeal(cs) && out.Applied && c03DealConsistent(cs.Alt) {
+		// E dealt another polynomial consistently: its messages are those of an honest dealer with other randomness, so E did
+		// not send anybody a protocol-violating message and must not be named either
+		for _, hp := range out.Honest {
+			if hp.ProtoErr && !strings.HasPrefix(hp.Inner, "aborted by other party") {
+				for _, cu := range hp.Culprits {
+					if cu == party.ID(cs.Cheater) {
+						fs = append(fs, c04BlameFinding{"honest-dealer-blamed", fmt.Sprintf("honest %s names %s, whose dealing was consistent: %.160s", hp.ID, cu, hp.ErrText)})
+					}
+				}
+			}
+		}
+	}
+	if c03IsDeal(cs) && out.Applied && !c03DealConsistent(cs.Alt) {
+		// not part of the soundness statement, recorded only: an attributable deviation after which a party ends by itself naming nobody
+		for _, hp := range out.Honest {
+			if hp.ProtoErr && len(hp.Culprits) == 0 && !c04NobodyNamed[p.Name+cs.Alt] && len(c04NobodyNamed) < 12 {
+				c04NobodyNamed[p.Name+cs.Alt] = true
+				c.res.Note("%s, dealer %s (%s): honest %s ends by itself with an error that names nobody: %.100s", p.Name, cs.Cheater, cs.Alt, hp.ID, hp.ErrText)
+			}
+		}
+	}
 	for _, f := range fs {
 		c.res.Violate("property", cs.Key+"/"+f.Suffix, fmt.Sprintf("cheater %s altered %s (%s) of its round-%d %s message: %s [%s]",
 			cs.Cheater, cs.Path, cs.Alt, cs.Round, cs.kind(), f.Desc, c03Describe(out)), cs)
 	}
 }
+
+var c04NobodyNamed = map[string]bool{}
 
 // ---------------------------------------------------------------------------------------------
 // (2) two-faced party
@@ -556,6 +580,8 @@ func (c *ctx) c04JudgeState(o *c04StateOut) {
 func runC04(c *ctx) {
 	c.res.Rule = "blame oracle on (1) the C03 mutation catalogue (FROST +/- taproot every field; CMP sign one field per message part plus per-recipient different broadcasts), " +
 		"(2) two-faced cheater (two honest instances of E with different randomness, instance 1 wired to one honest party, instance 2 to the other) for FROST sign (+taproot) n=3 at every cheater position and CMP sign n=3, " +
+		"key generation (FROST +/- taproot n=3,t=1 and n=4,t=2; CMP keygen and refresh, one cheater position) with E dealing another polynomial consistently (re-dealt, root at the victim with share 0 / wrong, degree t-1, t+1, t+2) " +
+		"and CMP keygen with one coefficient of the round-3 VSS polynomial dropped / added on the wire, " +
 		"(3) CMP presign state-level deviations (delta, gamma, k, chi, chi-persistent, sigma) of one presigner through a round.Session proxy on the real MultiHandler, " +
 		"variants offline/full/online, n=3, schedule cheater-last (thorough: also fifo), abort notices not delivered; non-trivial = a culprit was named / the instances really differed / the deviation hook fired"
 	if c.replay != "" {
@@ -660,6 +686,8 @@ func runC04(c *ctx) {
 		}
 		if c.thorough() {
 			names = append(names, "cmp-presign", "cmp-presign-full", "cmp-keygen", "cmp-refresh")
+		} else {
+			names = append(names, "cmp-keygen", "cmp-refresh") // quick: structure of the round-3 VSS polynomial only (see planOf)
 		}
 	}
 	var avail []string
@@ -674,17 +702,33 @@ func runC04(c *ctx) {
 			switch p.Name {
 			case "cmp-sign":
 				return c03Plan{AltsPerField: 2, Instances: 1, Positions: 3, Splits: true, SplitBcast: true, OnePerPart: true}
-			case "cmp-presign", "cmp-presign-full", "cmp-keygen", "cmp-refresh":
+			case "cmp-keygen", "cmp-refresh":
+				return c03Plan{AltsPerField: 1, Instances: 1, Positions: 1, Splits: true, OnePerPart: true, Deal: c03DealVariants, DealPositions: 1}
+			case "cmp-presign", "cmp-presign-full":
 				return c03Plan{AltsPerField: 1, Instances: 1, Positions: 1, Splits: true, OnePerPart: true}
 			}
-			return c03Plan{Splits: true, MsgLevel: true, Instances: 3}
+			return c03Plan{Splits: true, MsgLevel: true, Instances: 3, Deal: c03DealVariants}
+		}
+		if p.Name == "cmp-keygen" {
+			// quick: one cheater position (rotated by the seed); the VSS polynomial of the round-3 broadcast with one coefficient
+			// dropped / added on the wire (inconsistent with the round-2 commitment), and dealt consistently with degree t-1 / t+1
+			// and with a root at the victim (session proxy, c03_deal.go)
+			// (with a worker pool: a polynomial of the wrong length is refused by the degree check or the decommitment, before any proof)
+			return c03Plan{Instances: 1, Positions: 1, OnlyAlts: []string{"drop-last", "dup-first"}, UsePool: true,
+				OnlyFields: func(f c03Field) bool { return f.Round == 3 && f.Bcast && strings.HasSuffix(f.Field, ".VSSPolynomial~.Coefficients") },
+				Deal:       []string{"degree-1", "degree+1", "root-at-victim", "root-at-victim+wrong-share"}, DealPositions: 1}
+		}
+		if p.Name == "cmp-refresh" {
+			return c03Plan{DealOnly: true, Deal: []string{"degree-1", "degree+1"}, DealPositions: 1}
 		}
 		if p.Heavy {
 			return c03Plan{AltsPerField: 1, Instances: 1, Positions: 1, Splits: true, MsgLevel: false, OnePerPart: true}
 		}
-		return c03Plan{AltsPerField: 6, Instances: 2, Splits: true, MsgLevel: true}
+		return c03Plan{AltsPerField: 6, Instances: 2, Splits: true, MsgLevel: true, Deal: c03DealVariants}
 	}
-	c03Sweep(c, m, avail, planOf, func(p *c03Proto, out *c03Outcome) { c04Judge(c, p, out) })
+	judge := func(p *c03Proto, out *c03Outcome) { c04Judge(c, p, out) }
+	c03Sweep(c, m, avail, planOf, judge)
+	c03DealExtra(c, "C04", judge)
 }
 
 func c04ParallelDo(n int, f func(i int)) {
@@ -736,11 +780,14 @@ func (c *ctx) c04Replay() {
 	case has("alteration"):
 		var cs c03Case
 		_ = readJSON(c.replay, &cs)
-		m := c03Material(c, c03IsCMP(cs.Proto), cs.Proto == "cmp-presign-online")
+		m := c03Material(c, c03IsCMP(cs.Proto) && cs.Proto != "cmp-keygen", cs.Proto == "cmp-presign-online")
+		if cs.Proto == "cmp-keygen" {
+			usePrimeCache()
+		}
 		if cs.Proto == "cmp-sign" && len(cs.Parties) > 0 {
 			m.signers = idsOf(cs.Parties...)
 		}
-		if p := c03ProtoByName(m, cs.Proto); p != nil && len(m.errs) == 0 {
+		if p := c03ProtoForCase(m, cs); p != nil && len(m.errs) == 0 {
 			c04Judge(c, p, c03Run(p, cs))
 		} else {
 			c.res.Note("replay: set-up failed: %v", m.errs)
